@@ -69,7 +69,7 @@ func c02(c *Ctx) {
 	for _, f := range []string{"inmemPrecommittedTxID", "inmemPrecommittedAlh"} {
 		c.ruleWhoMayStore("C02.1/frontier-writers", "ImmuStore."+f, []string{storeT + "performPrecommit", storeT + "DiscardPrecommittedTxsSince"}, pk)
 	}
-	c.ruleWhoMayStore("C02.1/frontier-writers", "ImmuStore.precommittedTxLogSize", []string{storeT + "performPrecommit"}, pk)
+	c.ruleWhoMayStore("C02.1/frontier-writers", "ImmuStore.precommittedTxLogSize", []string{storeT + "performPrecommit", storeT + "DiscardPrecommittedTxsSince" /* since fix 9f890e0: the write position recedes with the frontier */}, pk)
 
 	// ---- C02.2 write positions -------------------------------------------------------------------
 	r := "C02.2/write-positions"
@@ -191,7 +191,9 @@ func c02(c *Ctx) {
 	// moves the id moves the hash, on every path, before the function returns; the next tx takes PrevAlh from the hash
 	rp := "C02.6/frontier-pair-moves-together"
 	np := 0
-	for _, pair := range [][2]string{{"ImmuStore.inmemPrecommittedTxID", "ImmuStore.inmemPrecommittedAlh"}, {"ImmuStore.committedTxID", "ImmuStore.committedAlh"}} {
+	// ... and so does the position at which the next transaction is written into the tx log: a frontier that recedes
+	// without it makes replacements land after the discarded transactions, which a restart then reloads instead
+	for _, pair := range [][2]string{{"ImmuStore.inmemPrecommittedTxID", "ImmuStore.inmemPrecommittedAlh"}, {"ImmuStore.committedTxID", "ImmuStore.committedAlh"}, {"ImmuStore.inmemPrecommittedTxID", "ImmuStore.precommittedTxLogSize"}} {
 		for _, f := range c.allFns {
 			if !fnInPkgs(f, []string{"embedded/store"}) || len(f.Blocks) == 0 {
 				continue
@@ -215,7 +217,7 @@ func c02(c *Ctx) {
 				}
 				q := &pathQ{fn: f, from: []ssa.Instruction{in}, to: isReturn, via: storeTo(pair[1])}
 				w := q.bypass()
-				c.check(before || w == nil, rp, fmt.Sprintf("%s:%s#%d", fnName(f), lastSeg(pair[0]), i), c.pos(in.Pos()), lastSeg(pair[1])+" is stored together with "+lastSeg(pair[0]),
+				c.check(before || w == nil, rp, fmt.Sprintf("%s:%s+%s#%d", fnName(f), lastSeg(pair[0]), lastSeg(pair[1]), i), c.pos(in.Pos()), lastSeg(pair[1])+" is stored together with "+lastSeg(pair[0]),
 					fmt.Sprintf("%s is moved without %s: the frontier id and its accumulated hash denote different transactions (the next tx is chained to the wrong hash): %s", lastSeg(pair[0]), lastSeg(pair[1]), c.witnessStr(w)))
 			}
 		}
